@@ -392,8 +392,19 @@ pub uninterp spec fn spec_full_roots(i: int) -> Seq<u64>;
 pub fn full_roots(i: u64, nodes: &mut Vec<u64>)
     requires i % 2 == 0      // the real function asserts this (panics otherwise)
     ensures final(nodes)@ == old(nodes)@ + spec_full_roots(i as int), spec_full_roots(i as int).len() <= 64,
-        forall|k: int| 0 <= k < spec_full_roots(i as int).len() ==> (#[trigger] spec_full_roots(i as int)[k]) < i
+        forall|k: int| 0 <= k < spec_full_roots(i as int).len() ==> (#[trigger] spec_full_roots(i as int)[k]) < i,
+        // the roots it yields are the mountain range over the flat range [0, i)
+        idx_mr(spec_full_roots(i as int), i as int)
 { unimplemented!() }
+/// flat index at which the tree of the k-th of a list of root indices starts
+pub open spec fn idx_start(idx: Seq<u64>, k: int) -> int
+    decreases k
+{ if k <= 0 { 0 } else { idx_start(idx, k - 1) + p2(depth_of(idx[k - 1]) + 1) } }
+/// the indices are the roots of aligned full trees laid out one after the other from 0 to `end`
+pub open spec fn idx_mr(idx: Seq<u64>, end: int) -> bool {
+    &&& forall|k: int| 0 <= k < idx.len() ==> (#[trigger] idx[k]) == idx_start(idx, k) + p2(depth_of(idx[k])) - 1 && idx_start(idx, k) % p2(depth_of(idx[k]) + 2) == 0
+    &&& idx_start(idx, idx.len() as int) == end
+}
 #[verifier::external_body]
 pub fn right_span(i: u64) -> (r: u64)
     requires i < 0x2000_0000_0000_0000
